@@ -7,16 +7,20 @@ import subprocess
 import sys
 import time
 
-ONLY = sys.argv[1:]
+ONLY = [a for a in sys.argv[1:] if not a.startswith("--")]
 res = {}
 path = "/verif/seeded/RESULTS.json"
+for a in sys.argv[1:]:
+    if a.startswith("--out="):
+        path = a[6:]
 if os.path.exists(path):
     res = json.load(open(path))
 for sid in sorted(os.listdir("/verif/seeded")):
     d = os.path.join("/verif/seeded", sid)
     if not os.path.isdir(d):
         continue
-    if ONLY and sid not in ONLY and sid.split("-")[0] not in ONLY:
+    if ONLY and sid not in ONLY and sid.split("-")[0] not in ONLY and not any(sid.endswith(o) for o in ONLY if o.startswith("-")) \
+            and not any(o.startswith("wave:") and sid.split("-")[1].startswith(o[5:6]) and sid.split("-")[0] in o[7:].split(",") for o in ONLY):
         continue
     meta = json.load(open(os.path.join(d, "meta.json")))
     if meta.get("status", "").startswith("superseded"):
